@@ -25,6 +25,7 @@ ASSUMPTIONS = [
     "the fault is injected at entry to the stage's callable; RNG, clock and scheduler are owned so the un-faulted run is reproducible",
 ]
 
+FNAMES = ["stages.dat", "nss_stages_run42", "out.h5", "OUT.FITS", "result.csv", "with space.fits", "a.b.c"]
 RESULT_KEYS = {"O": ["OMCINT", "OMCINTGO", "ONEVPASS", "OMCINTUN"], "R": ["RMCINT", "RMCINTGO", "RNEVPASS", "RMCINTUN"]}
 
 
@@ -94,6 +95,10 @@ def run_compute(spec, path, write_stages, crash_at=None, stage=None, fault_kind=
                 t = sim.run(cfg, seed=spec.get("seed", 11), output_file=path, write_stages=write_stages)
             except (faults.InjectedFault, faults.InjectedInterrupt) as ex:
                 return "raised", repr(ex)
+            except Exception as ex:
+                if crash_at is not None:
+                    raise
+                return "raised_other", f"{type(ex).__name__}: {str(ex)[:120]}"
     return "ok", t
 
 
@@ -169,7 +174,7 @@ def job(a):
     tmp = tempfile.mkdtemp(prefix="nssmc_c17_")
     out = []
     try:
-        path = os.path.join(tmp, "out.fits")
+        path = os.path.join(tmp, spec.get("fname", "out.fits"))
         kind = case[0]
         status, final = run_compute(spec, os.path.join(tmp, "final.fits"), True)
         if status != "ok":
@@ -181,8 +186,11 @@ def job(a):
         if kind == "boundaries":
             # the un-faulted run itself: the number of write boundaries equals the model's
             cnt = {"n": 0}
-            with faults.write_spy(lambda k, t: cnt.__setitem__("n", k)):
-                sim.run(cfg_of(spec), seed=spec.get("seed", 11), output_file=path, write_stages=True)
+            try:
+                with faults.write_spy(lambda k, t: cnt.__setitem__("n", k)):
+                    sim.run(cfg_of(spec), seed=spec.get("seed", 11), output_file=path, write_stages=True)
+            except Exception as ex:
+                out.append(("staged_run_completes", f"compute(output_file={os.path.basename(path)!r}, write_stages=True) returns", f"{type(ex).__name__}: {str(ex)[:120]}"))
             if cnt["n"] != K:
                 out.append(("number_of_write_boundaries", K, cnt["n"]))
             out += judge_file(path, spec, K, final)
@@ -209,7 +217,7 @@ def job(a):
             fk = case[2] if len(case) > 2 else "error"
             status, r = run_compute(spec, path, True, stage=st, fault_kind=fk)
             if status != "raised":
-                out.append(("exception_propagates", f"injected {fk} from stage {st}", "compute() returned normally"))
+                out.append(("exception_propagates", f"injected {fk} from stage {st}", "compute() returned normally" if status == "ok" else r))
             out += judge_file(path, spec, kb, final)
         elif kind == "nowrite":
             st = case[1]
@@ -231,6 +239,8 @@ def job(a):
                 before = sorted(os.listdir(tmp))
                 if st is None or boundary_before_stage(spec["mode"], spec["optical"], spec["radio"], st) is not None:
                     status, r = run_compute(spec, path, False, stage=st, fault_kind=case[2] if len(case) > 2 else "error")
+                    if status == "raised_other":
+                        out.append(("unstaged_run_completes", "compute() returns or raises the injected failure", r))
                 after = sorted(os.listdir(tmp))
             finally:
                 hook_on[0] = False
@@ -275,6 +285,15 @@ def run(ctx):
         for st in faults.STAGES:
             for fk in faults.FAULT_CLASSES:
                 jobs.append((sp, ("nowrite", st, fk)))
+    # output file names: the format is FITS whatever the name says (no extension, foreign extensions, upper case)
+    for fname in FNAMES:
+        sp = dict(base[0], fname=fname)
+        K = len(model(sp["mode"], sp["optical"], sp["radio"]))
+        jobs.append((sp, ("boundaries",)))
+        jobs.append((sp, ("crash", 1, False)))
+        jobs.append((sp, ("crash", K // 2, False)))
+        jobs.append((sp, ("stage", "radio_eas" if sp["radio"] else "optical_eas", "error")))
+        jobs.append((sp, ("nowrite", None)))
     for sp in zero:
         jobs.append((sp, ("boundaries",)))
         jobs.append((sp, ("crash", 0, False)))
@@ -285,7 +304,7 @@ def run(ctx):
     res = par.pmap(job, jobs)
     ncrash = nstage = 0
     for (sp, case), (v, info) in zip(jobs, res):
-        ctx.tick(1, (sp["mode"], sp["optical"], sp["radio"], sp["spectrum"], sp["n"] == 0 or (info or {}).get("rows") == 0, case))
+        ctx.tick(1, (sp["mode"], sp["optical"], sp["radio"], sp["spectrum"], sp["n"] == 0 or (info or {}).get("rows") == 0, case, sp.get("fname")))
         if case[0] == "crash":
             ncrash += 1
         if case[0] == "stage":
